@@ -18,7 +18,8 @@ def run_mutant(prop, diff, expect=None):
         if r.returncode != 0:
             return "PATCH-FAILED " + r.stdout + r.stderr
         ov = ",".join(f"{os.path.join(repo, f)}={os.path.join(tmp, f)}" for f in files if f.endswith(".go"))
-        r = subprocess.run([os.path.join(root, "bin/govc"), "check", "--property", prop, "--no-evidence", "--overlay", ov], capture_output=True, text=True, cwd=root)
+        # mutant runs skip the second, longer attempt at undecided obligations (they count as caught anyway)
+        r = subprocess.run([os.path.join(root, "bin/govc"), "check", "--property", prop, "--no-evidence", "--overlay", ov], capture_output=True, text=True, cwd=root, env=dict(os.environ, GOVC_NO_RETRY="1"))
         viol = [l for l in r.stdout.splitlines() if l.startswith("VIOLATION")]
         if r.returncode == 1 and viol:
             if expect and not any(expect in v for v in viol):
